@@ -52,5 +52,12 @@ manifest = {
     "notes": "Every check: regenerate tables from /repo -> lake build the property's theorem module and driver -> audit (#print axioms, forbidden tokens) -> replay finding witnesses -> model/implementation correspondence -> property oracle -> classify against known_findings.json. Exit 2 = infrastructure failure (never a violation).",
     "not_applicable": na,
 }
+# known_findings.json is assembled from findings.d/*.json (committed; never written by a check)
+allf = []
+for f in sorted((V / "findings.d").glob("C*.json")):
+    allf += json.loads(f.read_text())
+(V / "known_findings.json").write_text(json.dumps({
+    "_comment": "Assembled by tools/manifest.py from findings.d/*.json and committed by hand; never written at run time. status=open: genuine defect of /repo recorded rather than repaired (a failure counts as this finding only if the input lies in the finding's trigger region AND shows its signature). status=fixed: documents a 'fix:' commit in /repo; suppresses nothing - its witness is replayed on every run and a failure is a VIOLATION again.",
+    "findings": allf}, indent=1) + "\n")
 (V / "MANIFEST.json").write_text(json.dumps(manifest, indent=1) + "\n")
 print(f"{len(checks)} checks, {len(na)} not claimed")
